@@ -244,6 +244,9 @@ thread_local! {
 }
 static HOOK_INSTALLED: Mutex<bool> = Mutex::new(false);
 
+/// first panic that happened outside `catch` (any thread)
+pub static LAST_UNCAUGHT: std::sync::Mutex<Option<String>> = std::sync::Mutex::new(None);
+
 pub fn install_panic_hook() {
     let mut g = HOOK_INSTALLED.lock().unwrap();
     if *g {
@@ -266,6 +269,12 @@ pub fn install_panic_hook() {
         let quiet = QUIET.with(|q| q.get());
         LAST_PANIC.with(|p| *p.borrow_mut() = Some(format!("{} @ {}", msg, loc)));
         if !quiet {
+            // not inside catch(): remember the first one for the top-level handler in main
+            if let Ok(mut g) = LAST_UNCAUGHT.lock() {
+                if g.is_none() {
+                    *g = Some(format!("{} @ {}", msg, loc));
+                }
+            }
             prev(info);
         }
     }));
